@@ -11,6 +11,8 @@ the library's tools evaluated on the original and on the transformed input:
            positive rescaling of the vector lengths, mesh rescaling and
            translation, the three quarter turns of the sample.  Berg-Luescher:
            integer (= winding*polarity) for the textures that wrap the sphere.
+  coarse   skyrmions 1.2 - 2.6 cells in radius, centred off the cell centres: Berg-Luescher still an integer,
+           sign flip on reversal, unchanged by a lattice rotation of the vectors.
   uniform  uniform fields: both methods give zero.
   bps      hedgehogs centred in 3-D meshes, every n-tuple over the count
            alphabet x cell shapes x direction x reversed: exactly one Bloch
@@ -30,6 +32,7 @@ import discretisedfield as df
 from discretisedfield import tools as dft
 from discretisedfield.tools import tools as dft_mod
 from mc import common as C
+from mc import engine
 
 PROPERTY = "C19"
 RULE = ("unit charge: full product mesh x cell x texture (winding, helicity, polarity) x mask x method x transformation; "
@@ -236,6 +239,74 @@ def unit_charge(ctx):
         ctx.fail("topological_charge/operand-modified", "the field was changed", instance=inst)
 
 
+# coarse textures ----------------------------------------------------------------------------------------------------
+COARSE_N = [(11, 11), (9, 12)]
+COARSE_R = [1.5, 1.2, 2.0, 2.6]                      # skyrmion radius in cells
+COARSE_C = [(0.3, 0.4), (0.25, 0.25), (0.0, 0.0), (-0.45, 0.1)]  # centre offset from the mesh centre, in cells
+
+
+def coarse_skyrmion(n, R, c, w, p):
+    x = np.arange(n[0]) + 0.5 - n[0] / 2.0 - c[0]
+    y = np.arange(n[1]) + 0.5 - n[1] / 2.0 - c[1]
+    X, Y = np.meshgrid(x, y, indexing="ij")
+    r = np.hypot(X, Y) / R
+    th = np.pi * np.minimum(r, 1.0)
+    ph = w * np.arctan2(Y, X) + np.pi / 2
+    v = np.stack([np.sin(th) * np.cos(ph), np.sin(th) * np.sin(ph), p * np.cos(th)], axis=-1)
+    v[r >= 1.0] = (0.0, 0.0, -float(p))
+    return v
+
+
+def unit_coarse(ctx):
+    """Textures only one to three cells wide (single lattice triangles cover a large part of the sphere): the lattice
+    method still returns an integer - every spin configuration with a uniform rim is a map of the closed lattice to the
+    sphere - and the integer changes sign when all vectors are reversed and is the same for the rotated vectors.
+    (Which integer is not demanded here: under-resolved textures need not keep the continuum degree.)"""
+    n = ctx.choose("n", COARSE_N)
+    R = ctx.choose("radius-in-cells", COARSE_R)
+    c = ctx.choose("centre-offset", COARSE_C)
+    w = ctx.choose("winding", [1, -1])
+    p = ctx.choose("polarity", [1, -1])
+    cell = ctx.choose("cell", [(1.0, 1.0), (0.5e-9, 2e-9)])
+    arr = coarse_skyrmion(n, R, c, w, p)
+    mask = np.ones(n, dtype=bool)
+    inst = ctx.key(drop=("cell",))
+    # exceptional configurations (three vectors of a lattice triangle in one plane through the origin, the triangle
+    # covering half the sphere) have no defined solid angle: they are outside the statement.  All four triangles of
+    # every plaquette are examined, so the guard does not depend on which diagonal the library uses.
+    a, b, cc, dd = arr[:-1, :-1], arr[1:, :-1], arr[1:, 1:], arr[:-1, 1:]
+    rho = np.inf
+    for t in ((a, b, cc), (a, cc, dd), (a, b, dd), (b, cc, dd)):
+        re = 1.0 + np.sum(t[0] * t[1], -1) + np.sum(t[1] * t[2], -1) + np.sum(t[2] * t[0], -1)
+        im = np.sum(t[0] * np.cross(t[1], t[2]), -1)
+        rho = min(rho, float(np.min(np.hypot(re, im))))
+    if rho < 0.05:
+        ctx.note("coarse:exceptional-configuration-skipped")
+        raise engine.Skip()
+    ctx.note("coarse:triangles-with-negative-real-part", int(np.sum(1.0 + np.sum(a * b, -1) + np.sum(b * cc, -1) + np.sum(cc * a, -1) < 0)))
+    q0 = _charge(ctx, field2d(n, cell, (0.0, 0.0), arr, mask), "berg-luescher")
+    ctx.observe(round(q0, 9))
+    ctx.check()
+    if abs(q0 - round(q0)) > 1e-9:
+        ctx.fail("topological_charge/berg-luescher/not-an-integer/coarse-texture",
+                 f"skyrmion of radius {R} cells centred {c} off the mesh centre on {n}: charge {q0!r}", instance=inst)
+        return
+    if round(q0) != w * p:
+        ctx.note("coarse:integer-differs-from-continuum-degree(not-demanded)")
+    q1 = _charge(ctx, field2d(n, cell, (0.0, 0.0), -arr, mask), "berg-luescher")
+    ctx.check()
+    if abs(q1 + q0) > 1e-9:
+        ctx.fail("topological_charge/berg-luescher/not-invariant/reverse", f"coarse texture: {q0!r} -> {q1!r} on reversal",
+                 instance=inst)
+    M = _lattice_rotations()[5]
+    q2 = _charge(ctx, field2d(n, cell, (0.0, 0.0), arr @ M.T, mask), "berg-luescher")
+    ctx.check()
+    if abs(q2 - q0) > 1e-9:
+        ctx.fail("topological_charge/berg-luescher/not-invariant/lattice-rot", f"coarse texture: {q0!r} -> {q2!r} after a "
+                 f"proper lattice rotation of all vectors", instance=inst)
+
+
+
 UNIFORM = [(0, 0, 1), (0, 0, -1), (1, 0, 0), (0, 1, 0), (1, 1, 0), (1, 2, 3), (-2e5, 1e5, 0.5e5)]
 
 
@@ -321,6 +392,13 @@ def _angle_field(pattern, n, d):
         t = 0.37 * flat + 0.11 * i * i
         u = 0.9 * j - 0.23 * k + 0.05 * flat
         return np.stack([np.sin(t) * np.cos(u), np.sin(t) * np.sin(u) + 0.1, np.cos(t)], axis=-1) * (1 + flat % 3)[..., None]
+    if pattern in ("slow-spiral", "slow-spiral-fine", "near-antiparallel"):
+        # slowly varying texture: neighbours differ by a few 1e-3 ... 1e-5 rad (or by pi minus that)
+        a = {"slow-spiral": (4e-3, 1e-3, 2e-4), "slow-spiral-fine": (3e-5, 5e-6, 1e-4), "near-antiparallel": (4e-3, 1e-3, 2e-4)}[pattern]
+        phi = a[0] * i + a[1] * j + a[2] * k + 0.3
+        if pattern == "near-antiparallel":
+            phi = phi + np.pi * idx[..., d]
+        return np.stack([np.cos(phi), np.sin(phi), 0.0 * phi], axis=-1) * (1.0 + flat % 3)[..., None]
     raise AssertionError(pattern)
 
 
@@ -330,7 +408,8 @@ def unit_angles(ctx):
     cell = ctx.choose("cell", CELLS3)
     dims = ctx.choose("dims", DIMS3)
     d = ctx.choose("direction", [a for a in range(3) if n[a] >= 2])
-    pattern = ctx.choose("pattern", ["coded", "parallel", "antiparallel", "generic"])
+    pattern = ctx.choose("pattern", ["coded", "parallel", "antiparallel", "generic", "slow-spiral", "slow-spiral-fine",
+                                     "near-antiparallel"])
     un = ctx.choose("units", ["rad", "deg"])
     origin = (0.3 * cell[0], -1.0 * cell[1], 5.0 * cell[2])
     p2 = tuple(o + k * c for o, k, c in zip(origin, n, cell))
@@ -529,6 +608,7 @@ def unit_refuse(ctx):
 def units(tier):
     return [
         {"name": "charge", "fn": unit_charge, "bound": None},
+        {"name": "coarse", "fn": unit_coarse, "bound": None},
         {"name": "uniform", "fn": unit_uniform, "bound": None},
         {"name": "bps", "fn": unit_bps, "bound": None},
         {"name": "angles", "fn": unit_angles, "bound": None},
